@@ -1,25 +1,35 @@
-"""Bounded stand-in for C15 (labelled bounded): shipped LALR parser vs lark Earley on the grammar text.
+"""Bounded stand-in for C15 (labelled bounded): the shipped parser AND the real parse()/compile_str() pipeline against an
+independent Earley recogniser built from the grammar text.
+
+stage 1 (python3-vt, has lark): for every token string up to the bound (plus a whitespace variant), the Earley verdict
+  and tree from _dsl_grammar.lark, compared with the shipped stand-alone LALR parser; written to a JSON file.
+stage 2 (/venv/bin/python with the tree under test on PYTHONPATH): every string goes through traits.observation.parsing
+  -- parse() must raise ValueError exactly for the strings the grammar rejects, and compile_str(text) must equal the
+  graphs compiled from an expression built from the *oracle* tree with the documented meaning (notify on an element iff
+  last or followed by '.', items = trait items | dict | list | set items, all optional).
 usage: dsl_parser.py <repo root> <length bound>; prints one JSON line."""
 import importlib.util
 import itertools
 import json
 import multiprocessing
+import os
+import subprocess
 import sys
+import tempfile
 
-REPO, BOUND = sys.argv[1], int(sys.argv[2])
 TOKENS = ["a", "items", "+", "*", ".", ":", ",", "[", "]"]
 _state = {}
 
 
-def load():
+def load(repo):
     if not _state:
         import lark
-        spec = importlib.util.spec_from_file_location("gp", REPO + "/traits/observation/_generated_parser.py")
+        spec = importlib.util.spec_from_file_location("gp", repo + "/traits/observation/_generated_parser.py")
         m = importlib.util.module_from_spec(spec)
         spec.loader.exec_module(m)
         _state["lalr"] = m.Lark_StandAlone()
         _state["lark_error"] = m.LarkError
-        g = open(REPO + "/traits/observation/_dsl_grammar.lark").read()
+        g = open(repo + "/traits/observation/_dsl_grammar.lark").read()
         # Earley with the dynamic lexer recognises exactly the language of the grammar text; the only ambiguity is the
         # word "items" (keyword vs NAME), resolved as documented: the `items` rule wins where both apply
         _state["earley"] = lark.Lark(g, parser="earley", start="start", ambiguity="explicit")
@@ -31,37 +41,34 @@ def shape(t):
     if hasattr(t, "data"):
         if str(t.data) == "_ambig":
             alts = [shape(c) for c in t.children]
-            pick = [a for a in alts if a == ("items", ())]
-            rest = [a for a in alts if a not in (("items", ()), ("trait", (("tok", "items"),)))]
+            pick = [a for a in alts if a == ["items", []]]
+            rest = [a for a in alts if a not in (["items", []], ["trait", [["tok", "items"]]])]
             if pick and not rest:
                 return pick[0]
-            return ("_ambig", tuple(alts))
-        return (str(t.data), tuple(shape(c) for c in t.children))
-    return ("tok", str(t))
+            return ["_ambig", alts]
+        return [str(t.data), [shape(c) for c in t.children]]
+    return ["tok", str(t)]
 
 
 def render(tokens, spaced):
     out = []
     names = iter("abcdefgh")
-    for i, tk in enumerate(tokens):
-        s = next(names) + "1" if tk == "a" else tk
-        out.append(s)
-    sep = " " if spaced else ""
-    txt = sep.join(out)
-    if not spaced:
-        # adjacent NAME-like tokens must be separated to stay distinct tokens
-        txt = ""
-        for i, s in enumerate(out):
-            if i and (out[i - 1][-1].isalnum() or out[i - 1][-1] == "_") and (s[0].isalnum() or s[0] == "_"):
-                txt += " "
-            txt += s
+    for tk in tokens:
+        out.append(next(names) + "1" if tk == "a" else tk)
+    if spaced:
+        return " ".join(out)
+    txt = ""
+    for i, s in enumerate(out):
+        if i and (out[i - 1][-1].isalnum() or out[i - 1][-1] == "_") and (s[0].isalnum() or s[0] == "_"):
+            txt += " "
+        txt += s
     return txt
 
 
-def check(tokens):
-    st = load()
-    bad = []
-    acc = 0
+def check(arg):
+    repo, tokens = arg
+    st = load(repo)
+    bad, rows = [], []
     for spaced in (False, True):
         text = render(tokens, spaced)
         try:
@@ -81,18 +88,118 @@ def check(tokens):
             bad.append("%r: shipped parser %s, grammar %s" % (text, "accepts" if a else "rejects", "accepts" if b else "rejects"))
         elif a != b:
             bad.append("%r: different trees %r vs %r" % (text, a, b))
-        acc += a is not None
-    return bad, acc
+        rows.append((text, b))
+    return bad, rows
+
+
+STAGE2 = r'''
+import json, sys
+from traits.observation import parsing, expression
+rows = json.load(open(sys.argv[1]))
+bad = []
+
+
+def build(t, notify):
+    kind, kids = t
+    if kind in ("series", "series_terminal"):
+        l, c, r = kids
+        return build(l, c[0] == "notify").then(build(r, notify))
+    if kind in ("parallel", "parallel_terminal"):
+        l, r = kids
+        return build(l, notify) | build(r, notify)
+    if kind == "trait":
+        return expression.trait(kids[0][1], notify=notify)
+    if kind == "metadata":
+        return expression.metadata(kids[0][1], notify=notify)
+    if kind == "anytrait":
+        return expression.anytrait(notify=notify)
+    if kind == "items":
+        return (expression.trait("items", notify=notify, optional=True) | expression.dict_items(notify=notify, optional=True)
+                | expression.list_items(notify=notify, optional=True) | expression.set_items(notify=notify, optional=True))
+    raise ValueError(kind)
+
+
+accepted = 0
+dup = []
+for text, tree in rows:
+    parsing.parse.cache_clear()
+    parsing.compile_str.cache_clear()
+    try:
+        expr = parsing.parse(text)
+        got = True
+    except ValueError:
+        got = False
+    except Exception as e:
+        bad.append("%r: parse raised %r (neither a result nor ValueError)" % (text, e))
+        continue
+    if got != (tree is not None):
+        bad.append("%r: parse() %s but the grammar %s it" % (text, "accepts" if got else "raises ValueError", "generates" if tree is not None else "does not generate"))
+        continue
+    if not got:
+        continue
+    accepted += 1
+    try:
+        want = expression.compile_expr(build(tree, True))
+    except ValueError:
+        # the documented meaning itself cannot be compiled: equal parallel branches below a series element ('a.[b,b]')
+        try:
+            parsing.compile_str(text)
+            bad.append("%r: compile_str succeeds where compiling the documented meaning fails" % text)
+        except ValueError:
+            dup.append(text)
+        continue
+    try:
+        have = parsing.compile_str(text)
+    except Exception as e:
+        bad.append("%r: compile_str raised %r" % (text, e))
+        continue
+    if have != want or parsing.compile_str(text) != have:
+        bad.append("%r: compiled pattern differs from the documented meaning" % text)
+print(json.dumps(dict(accepted=accepted, violations=bad[:50], duplicate_branch_rejections=dup[:5], n_dup=len(dup))))
+'''
 
 
 def main():
+    repo, bound = sys.argv[1], int(sys.argv[2])
     cases = []
-    for n in range(0, BOUND + 1):
-        cases += list(itertools.product(TOKENS, repeat=n))
+    for n in range(0, bound + 1):
+        cases += [(repo, t) for t in itertools.product(TOKENS, repeat=n)]
     with multiprocessing.Pool(16) as pool:
         res = pool.map(check, cases, chunksize=500)
-    viol = [v for (b, _a) in res for v in b]
-    print(json.dumps(dict(cases=2 * len(cases), accepted=sum(a for (_b, a) in res), violations=viol[:50])))
+    viol = [v for (b, _r) in res for v in b]
+    rows = [r for (_b, rs) in res for r in rs]
+    # extra strings outside the token enumeration: blanks inside a name / keyword, non-ASCII blanks
+    rows += [(s, None) for s in ("na me", "it ems", "+m n", "a\xa0.b", "a b")] + [("a\nb", None), ("[a b]", None)]
+    st = load(repo)
+    for text in (" a . b ", "a,\n\tb", "a.[b,b]", "[a,a].b", "a:[b.c,b.c].d", "x.[items,items]"):
+        try:
+            rows.append((text, shape(st["earley"].parse(text))))
+        except st["lark"].exceptions.LarkError:
+            rows.append((text, None))
+    accepted = None
+    dup, ndup = [], 0
+    with tempfile.NamedTemporaryFile("w", suffix=".json", delete=False, dir=os.environ.get("VERIF_SCRATCH")) as f:
+        json.dump(rows, f)
+        path = f.name
+    try:
+        env = dict(os.environ)
+        env["PYTHONPATH"] = repo if os.path.exists(os.path.join(repo, "traits", "__init__.py")) else "/repo"
+        # a partial overlay tree (selftest mutants) is completed by /repo
+        if env["PYTHONPATH"] != "/repo" and not os.path.exists(os.path.join(repo, "traits", "ctraits.c")):
+            env["PYTHONPATH"] = "/repo"
+        p = subprocess.run(["/venv/bin/python", "-c", STAGE2, path], capture_output=True, text=True, env=env)
+        try:
+            r2 = json.loads(p.stdout.strip().splitlines()[-1])
+            viol += r2["violations"]
+            accepted = r2["accepted"]
+            dup = r2.get("duplicate_branch_rejections", [])
+            ndup = r2.get("n_dup", 0)
+        except Exception:
+            viol.append("stage 2 (real parse/compile_str) failed to run: %s" % (p.stderr or p.stdout)[-500:])
+    finally:
+        os.unlink(path)
+    print(json.dumps(dict(cases=len(rows), accepted=accepted, violations=viol[:50],
+                          known=[dict(id="bounded:duplicate-parallel-branches", count=ndup, examples=dup)] if ndup else [])))
 
 
 if __name__ == "__main__":
